@@ -219,6 +219,9 @@ def n_cases(tier):
 
 
 def gen_case(rng, tier, index):
+    if rng.random() < 0.06:
+        return {"same_name_pair": True, "device": rng.choice(["evo", "fluent"]), "max_volume": rng.choice([950, 200, 100]),
+                "opseed": rng.getrandbits(32)}
     vclass = rng.choice(["int", "quarter", "cent", "dirty"])
     wl = gen.gen_worklist_cfg(rng)
     wl["max_volume"] = rng.choice([950, 200, 100, 50, 1000])
@@ -230,7 +233,50 @@ def gen_case(rng, tier, index):
     return {"worklist": wl, "worktable": wt, "n_ops": n_ops, "opseed": rng.getrandbits(48), "profile": "history", "vclass": vclass}
 
 
+def _same_name_pair(ctx, case):
+    """Two distinct labware objects that carry the same name (the library allows it): a transfer between
+    them has two participants, each of which gets exactly one new entry; nothing earlier is touched."""
+    import robotools
+
+    rng = __import__("random").Random(case["opseed"])
+    dev = case["device"]
+    cls = robotools.EvoWorklist if dev == "evo" else robotools.FluentWorklist
+    wl = cls(max_volume=case["max_volume"])
+    A = robotools.Labware("plate", 2, 3, min_volume=0, max_volume=1e5, initial_volumes=5e4)
+    B = robotools.Labware("plate", 2, 3, min_volume=0, max_volume=1e5, initial_volumes=10.0)
+    for lw in (A, B):
+        for i in range(rng.randint(1, 3)):
+            lw.add("A01", 1.0 + i, label=f"earlier {i}")
+    pre = {id(x): snap(x) for x in (A, B)}
+    n = rng.randint(1, 4)
+    ids = ["A01", "B01", "A02", "B02"][:n]
+    vols = [rng.choice([10.0, 25.5, case["max_volume"] * 2.5, 0.0]) for _ in ids]
+    if not any(v > 0 for v in vols):
+        vols[0] = 12.0
+    exc = None
+    try:
+        wl.transfer(A, ids, B, ids, vols, label="pair")
+    except Exception as e:
+        exc = e
+    ctx.count("same_name_pair_transfers")
+    det = lambda: {"device": dev, "wells": ids, "volumes": vols, "raised": repr(exc),
+                   "source_history": [(e[0], e.tolist()) for e in snap(A)], "destination_history": [(e[0], e.tolist()) for e in snap(B)]}
+    ctx.case(case, True)
+    if exc is not None:
+        ctx.count("same_name_pair_refused")
+        return
+    for lw, role in ((A, "source"), (B, "destination")):
+        post = snap(lw)
+        keep = len(pre[id(lw)])
+        ctx.check("earlier_entries_unchanged", len(post) >= keep and post[:keep] == pre[id(lw)], lambda: dict(det(), labware=role))
+        ctx.check("exactly_one_entry_per_operation_and_labware", len(post) - keep == 1, lambda: dict(det(), labware=role, new_entries=len(post) - keep))
+        if len(post) > keep:
+            ctx.check("newest_entry_equals_current_volumes", np.array_equal(np.array(post[-1].tolist()), lw.volumes), lambda: dict(det(), labware=role))
+
+
 def run_case(ctx, case):
+    if case.get("same_name_pair"):
+        return _same_name_pair(ctx, case)
     mon = HistoryMonitor(ctx)
     eng = hist.Engine(ctx, case, [mon])
     eng.run()
